@@ -3,7 +3,7 @@ CONSTANTS
   SdsWriters = {"DFSD", "SD"}
   RasWriters = {}
   Shapes <- ShapesA
-  Types = {"i16", "f32", "u8"}
+  Types = {"i16", "f32", "u8", "li16", "lf32"}
   RasDims <- RDimsNone
   ScaleSets <- ScalesAll
   Grows = {}
